@@ -1,180 +1,270 @@
 // C19 — unit-test expectation helpers are a sound and complete oracle.
-// E-ENUM: the space (relations x operand pairs; expected type x behaviour) is finite and is
-// enumerated completely in both tiers.
-#include <new>
-#include <string>
-#include <type_traits>
-
-#include "UnitTest.hh"
-#include "vf.hh"
+// E-ENUM: the space (relations x operand pairs x execution context; expected type x behaviour x callable kind x
+// context; histories of two/three helper calls; boundary sites) is finite and enumerated completely.
+//
+// Translation units (one binary):
+//   C19_common.cc : execution contexts, verdicts, relation sweep, main()
+//   C19.cc        : relations (core operand sets x 10 contexts), predicates (non-bool predicate values),
+//                   hygiene (operands that are expressions / have side effects / cannot be copied)
+//   C19_types1.cc, C19_types2.cc : relation macros over 45 further operand-type pairs
+//   C19_raises.cc : expect_raises matrix (expected type x behaviour x kind of callable x context)
+//   C19_hist.cc   : histories of calls, exception objects in non-initial states, boundary sites and arguments
+#include "C19_rel.hh"
 
 using namespace phosg;
+using namespace c19;
 
+// The seven macros + expect_msg on the classic boundary sets, in all ten execution contexts.
+VF_SECTION(relations, 4, 4, 120) {
+  const auto& C = all_ctx();
+  check_relations<int>(r, "int", {INT32_MIN, -1, 0, 1, INT32_MAX}, C);
+  check_relations<int64_t>(r, "int64", {INT64_MIN, -1, 0, 1, INT64_MAX}, C);
+  check_relations<uint64_t>(r, "uint64", {0, 1, 0x7FFFFFFFFFFFFFFFull, 0x8000000000000000ull, UINT64_MAX}, C);
+  check_relations<std::string>(r, "string", {"", "a", "b", "ab", std::string("a\0", 2)}, C);
+  double inf = __builtin_inf();
+  // NaN is included: every ordered relation and == are false, != is true, and the helpers must follow
+  check_relations<double>(r, "double", {-inf, -1.5, -0.0, 0.0, 1.5, inf, __builtin_nan("")}, C);
+  std::vector<bool> bools = {false, true};
+  check_relations<bool, bool>(r, "bool", bools, bools, C);
+  // partially ordered / odd user types: the macro must apply exactly the operator it names
+  check_relations<Subset>(r, "Subset", {{0}, {1}, {2}, {3}}, C);
+  check_relations<PO>(r, "PO", {{-1.0}, {0.0}, {__builtin_nan("")}}, C);
+  check_relations<Tri>(r, "Tri", {{-1}, {0}, {1}}, C);
+  check_relations<EqOnly>(r, "EqOnly", {{0}, {1}}, C);
+  r.bound = "8 macro forms (expect, expect_eq/ne/gt/ge/lt/le, expect_msg) x all ordered operand pairs of 10 boundary sets (int, int64, uint64, string, double incl. NaN, bool, a set-inclusion partial order, a defaulted <=> over double, operators returning int 256, ==-only type) x 10 execution contexts";
+}
+
+// ---- predicate values that are not bool ------------------------------------------------------------------
 namespace {
 
-struct Derived1 : std::runtime_error { Derived1() : std::runtime_error("d1") {} };
-struct Derived2 : Derived1 {};
+using c19::sv;
 
-// One call per relation so the call site (file/line) is known exactly.
-struct Site { const char* file; uint64_t line; };
+struct AsInt {
+  long long v;
+  operator long long() const { return v; }
+};
+struct AsBool {
+  int v;
+  operator bool() const { return v != 0; }
+};
+std::string sv(const AsInt& a) { return vf::fmt("AsInt{%lld}", a.v); }
+std::string sv(const AsBool& a) { return vf::fmt("AsBool{%d}", a.v); }
 
-template <class T>
-void check_relations(vf::Run& r, const char* tname, const std::vector<T>& vals, std::function<std::string(const T&)> show) {
-  static const char* names[] = {"expect", "expect_eq", "expect_ne", "expect_gt", "expect_ge", "expect_lt", "expect_le"};
-  for (int rel = 0; rel < 7; rel++) {
-    for (size_t i = 0; i < vals.size(); i++) {
-      for (size_t j = 0; j < vals.size(); j++) {
+template <class V>
+void check_pred(vf::Run& r, const char* tname, const std::vector<V>& vals, const std::vector<int>& ctxs) {
+  r.note(std::string("predicates ") + tname);
+  static const char* forms[] = {"expect", "expect_msg", "expect_generic", "expect(!v)"};
+  static const std::string m1 = "value is zero: 50% of %s", m2 = "generic %d%n";
+  for (int ctx : ctxs) {
+    for (int form = 0; form < 4; form++) {
+      for (size_t i = 0; i < vals.size(); i++) {
         if (!r.take()) continue;
-        const T& a = vals[i];
-        const T& b = vals[j];
-        if (r.wants_desc()) r.desc(vf::fmt("%s<%s>(%s, %s)", names[rel], tname, show(a).c_str(), show(b).c_str()));
+        const V& v = vals[i];
+        auto d = [&] { return vf::fmt("%s<%s>(%s)", forms[form], tname, sv(v).c_str()); };
+        if (r.wants_desc()) r.desc(d() + " [" + ctx_name(ctx) + "]");
         bool truth = false;
-        Site site{__FILE__, 0};
-        bool threw = false, wrong_type = false;
-        std::string got_file, got_msg;
-        uint64_t got_line = 0;
-        std::string what;
-        try {
-          switch (rel) {
+        Site site;
+        site.file = __FILE__;
+        Res res = run_ctx(ctx, r.ambient_errno(), [&] {
+          return probe([&] {
             // clang-format off
-            case 0: truth = (a == b); site.line = __LINE__; expect(a == b); break;
-            case 1: truth = (a == b); site.line = __LINE__; expect_eq(a, b); break;
-            case 2: truth = (a != b); site.line = __LINE__; expect_ne(a, b); break;
-            case 3: truth = (a > b); site.line = __LINE__; expect_gt(a, b); break;
-            case 4: truth = (a >= b); site.line = __LINE__; expect_ge(a, b); break;
-            case 5: truth = (a < b); site.line = __LINE__; expect_lt(a, b); break;
-            case 6: truth = (a <= b); site.line = __LINE__; expect_le(a, b); break;
+            switch (form) {
+              case 0: { bool t = v; truth = t; site.line = __LINE__; expect(v); break; }
+              case 1: { bool t = v; truth = t; site.line = __LINE__; expect_msg(v, "value is zero: 50% of %s"); break; }
+              case 2: { bool t = v; truth = t; site.line = 77; site.file = "some/other file.cc"; expect_generic(v, "generic %d%n", "some/other file.cc", 77); break; }
+              case 3: { bool t = !v; truth = t; site.line = __LINE__; expect(!v); break; }
+            }
             // clang-format on
-          }
-        } catch (const expectation_failed& e) {
-          threw = true;
-          got_file = e.file ? e.file : "(null)";
-          got_line = e.line;
-          got_msg = e.msg ? e.msg : "(null)";
-          what = e.what();
-        } catch (...) {
-          threw = true;
-          wrong_type = true;
-        }
+          });
+        });
         r.nontriv();
-        auto d = [&] { return vf::fmt("%s<%s>(%s, %s): relation is %s, helper %s", names[rel], tname, show(a).c_str(), show(b).c_str(), truth ? "true" : "false", threw ? "threw" : "did not throw"); };
-        std::string k = std::string(names[rel]);
-        if (wrong_type) r.fail(k + ":wrong-exception-type", d);
-        else if (threw == truth) r.fail(k + (truth ? ":throws-on-true" : ":silent-on-false"), d);
-        else if (threw) {
-          if (got_file != site.file || got_line != site.line) r.fail(k + ":call-site", [&] { return d() + vf::fmt(" carries %s:%llu, call site is %s:%llu", got_file.c_str(), (unsigned long long)got_line, site.file, (unsigned long long)site.line); });
-          else if (got_msg.empty() || what.find(got_msg) == std::string::npos || what.find(got_file) == std::string::npos || what.find(std::to_string(got_line)) == std::string::npos)
-            r.fail(k + ":message", [&] { return d() + " msg=" + vf::show(got_msg) + " what=" + vf::show(what); });
-          else r.ok("throws-on-false");
-        } else r.ok("silent-on-true");
+        static const std::vector<std::string> p0 = {"v"}, none = {}, p3 = {"!v"};
+        judge(r, form == 3 ? "expect" : forms[form], ctx, !truth, res, site, form == 0 ? p0 : form == 3 ? p3 : none, form == 1 ? &m1 : form == 2 ? &m2 : nullptr, d);
       }
     }
   }
 }
 
-enum Behaviour { RETURNS, T_EXC, T_LOGIC, T_INVARG, T_OOR, T_RUNTIME, T_RANGE, T_BADALLOC, T_EXPFAIL, T_D1, T_D2, T_INT, NBEH };
-const char* beh_name[] = {"returns", "throws std::exception", "throws logic_error", "throws invalid_argument", "throws out_of_range",
-    "throws runtime_error", "throws range_error", "throws bad_alloc", "throws expectation_failed", "throws Derived1", "throws Derived2", "throws int"};
+}  // namespace
 
-void behave(int b) {
-  switch (b) {
-    case RETURNS: return;
-    case T_EXC: throw std::exception();
-    case T_LOGIC: throw std::logic_error("l");
-    case T_INVARG: throw std::invalid_argument("i");
-    case T_OOR: throw std::out_of_range("o");
-    case T_RUNTIME: throw std::runtime_error("r");
-    case T_RANGE: throw std::range_error("g");
-    case T_BADALLOC: throw std::bad_alloc();
-    case T_EXPFAIL: throw expectation_failed("inner", "inner.cc", 7);
-    case T_D1: throw Derived1();
-    case T_D2: throw Derived2();
-    case T_INT: throw 42;
-  }
+VF_SECTION(predicates, 2, 4, 120) {
+  const auto& C = all_ctx();
+  std::vector<int> ints = {0, -1, INT32_MIN, INT32_MAX};
+  for (int k = 0; k < 31; k++) ints.push_back(1 << k);
+  std::vector<long long> lls = {0, -1, INT64_MIN, INT64_MAX};
+  for (int k = 0; k < 63; k++) lls.push_back(1ll << k);
+  std::vector<unsigned long> uls = {0, UINT64_MAX};
+  for (int k = 0; k < 64; k++) uls.push_back(1ull << k);
+  check_pred<int>(r, "int", ints, C);
+  check_pred<long long>(r, "long long", lls, C);
+  check_pred<unsigned long>(r, "unsigned long", uls, C);
+  check_pred<uint8_t>(r, "uint8", {0, 1, 2, 128, 255}, C);
+  check_pred<short>(r, "short", {0, 1, 256, -32768, 0x4000}, C);
+  check_pred<char>(r, "char", {(char)0, 'a', (char)0x80}, C);
+  check_pred<double>(r, "double", {0.0, -0.0, 0.5, -0.25, 1e-320, 1e-300, 1e300, __builtin_inf(), __builtin_nan("")}, C);
+  check_pred<float>(r, "float", {0.0f, -0.0f, 0.5f, 1e-45f, __builtin_nanf("")}, C);
+  check_pred<long double>(r, "long double", {0.0L, 0.5L, 1e-4940L}, C);
+  static const char* cs[] = {nullptr, "", "x"};
+  check_pred<const char*>(r, "const char*", std::vector<const char*>(cs, cs + 3), C);
+  check_pred<int*>(r, "int*", {nullptr, &g_arr[0]}, C);
+  check_pred<Color>(r, "enum", {RED, GREEN, BLUE}, C);
+  check_pred<AsInt>(r, "class with operator long long", {{0}, {1}, {256}, {1ll << 32}, {INT64_MIN}, {-1}}, C);
+  check_pred<AsBool>(r, "class with operator bool", {{0}, {1}, {256}}, C);
+  std::vector<bool> bools = {false, true};
+  check_pred<bool>(r, "bool", bools, C);
+  r.bound = std::string("expect(v), expect(!v), expect_msg(v, msg with %), expect_generic(v, msg, file, line) for v over int/long long/unsigned long 2^k (all k) and extremes, uint8, short, char, double/float/long double (zeros, denormals, NaN, inf), pointers, enum, classes converting through operator long long / operator bool x ") + "10 execution contexts";
 }
 
-template <class E, class X>
-constexpr bool derives() { return std::is_base_of<E, X>::value; }
+// ---- macro hygiene: operands that are expressions, operands with side effects ------------------------------
+namespace {
 
-template <class E>
-bool should_succeed(int b) {
-  switch (b) {
-    case RETURNS: return false;
-    case T_EXC: return derives<E, std::exception>();
-    case T_LOGIC: return derives<E, std::logic_error>();
-    case T_INVARG: return derives<E, std::invalid_argument>();
-    case T_OOR: return derives<E, std::out_of_range>();
-    case T_RUNTIME: return derives<E, std::runtime_error>();
-    case T_RANGE: return derives<E, std::range_error>();
-    case T_BADALLOC: return derives<E, std::bad_alloc>();
-    case T_EXPFAIL: return derives<E, expectation_failed>();
-    case T_D1: return derives<E, Derived1>();
-    case T_D2: return derives<E, Derived2>();
-    case T_INT: return false;
-  }
-  return false;
-}
-
-template <class E>
-void check_raises(vf::Run& r, const char* ename) {
-  for (int b = 0; b < NBEH; b++) {
-    if (!r.take()) continue;
-    if (r.wants_desc()) r.desc(vf::fmt("expect_raises<%s>(fn that %s)", ename, beh_name[b]));
-    bool want_ok = should_succeed<E>(b);
-    uint64_t line = 0;
-    std::string res, file;
-    uint64_t got_line = 0;
-    try {
-      // clang-format off
-      line = __LINE__; expect_raises(E, [&]() { behave(b); });
-      // clang-format on
-      res = "succeeds";
-    } catch (const expectation_failed& e) {
-      // an expectation_failed that is the callee's own (inner.cc:7) escaping means the helper did not
-      // convert it; distinguish by the carried site
-      file = e.file ? e.file : "";
-      got_line = e.line;
-      res = (file == "inner.cc") ? "propagates-inner" : "fails";
-    } catch (...) {
-      res = "propagates-other";
-    }
-    r.nontriv();
-    auto d = [&] { return vf::fmt("expect_raises<%s>(fn that %s): expected to %s, observed: %s", ename, beh_name[b], want_ok ? "succeed" : "fail with expectation_failed", res.c_str()); };
-    std::string k = std::string("expect_raises<") + ename + ">";
-    if (want_ok && res != "succeeds") r.fail(k + ":rejects-matching:" + beh_name[b], d);
-    else if (!want_ok && res == "succeeds") r.fail(k + ":accepts:" + beh_name[b], d);
-    else if (!want_ok && res != "fails") r.fail(k + ":not-expectation_failed:" + beh_name[b], d);
-    else if (!want_ok && (file != __FILE__ || got_line != line)) r.fail(k + ":call-site", [&] { return d() + vf::fmt(" carries %s:%llu", file.c_str(), (unsigned long long)got_line); });
-    else r.ok(want_ok ? "succeeds-on-match" : "fails-on-mismatch");
-  }
-}
+struct Counter {
+  int n = 0;
+  int next() { return n++; }
+};
 
 }  // namespace
 
-VF_SECTION(relations, 1, 1, 60) {
-  check_relations<int>(r, "int", {INT32_MIN, -1, 0, 1, INT32_MAX}, [](const int& v) { return std::to_string(v); });
-  check_relations<int64_t>(r, "int64", {INT64_MIN, -1, 0, 1, INT64_MAX}, [](const int64_t& v) { return std::to_string(v); });
-  check_relations<uint64_t>(r, "uint64", {0, 1, 0x7FFFFFFFFFFFFFFFull, 0x8000000000000000ull, UINT64_MAX}, [](const uint64_t& v) { return std::to_string(v); });
-  check_relations<std::string>(r, "string", {"", "a", "b", "ab", std::string("a\0", 2)}, [](const std::string& v) { return vf::show(v); });
-  double inf = __builtin_inf();
-  // NaN is included: every ordered relation and == are false, != is true, and the helpers must follow
-  check_relations<double>(r, "double", {-inf, -1.5, -0.0, 0.0, 1.5, inf, __builtin_nan("")}, [](const double& v) { return vf::fmt("%g", v); });
-  check_relations<bool>(r, "bool", {false, true}, [](const bool& v) { return std::string(v ? "true" : "false"); });
-  r.bound = "7 relations x all ordered operand pairs of 6 boundary sets";
+VF_SECTION(hygiene, 2, 2, 120) {
+  const auto& C = all_ctx();
+  r.note("hygiene");
+  // (1) operands that are expressions whose operators bind weaker than the comparison: the stated relation is
+  //     (A) op (B) with the operands taken as written.  x, y, z over {0,1,2,3}.
+  const int NF = 34;
+  for (int ctx : C) {
+    for (int form = 0; form < NF; form++) {
+      for (int xyz = 0; xyz < 64; xyz++) {
+        if (!r.take()) continue;
+        int x = xyz & 3, y = (xyz >> 2) & 3, z = xyz >> 4;
+        int t = 0;  // target of the assignment forms
+        bool truth = false, post_ok = true;
+        Site site;
+        site.file = __FILE__;
+        std::vector<std::string> parts;
+        const char* mname = "";
+        std::string text;
+#define BIN(N, M, OP, A, B) \
+  case N: mname = #M; text = #M "(" #A ", " #B ")"; parts = {#A, #B}; truth = bool((A)OP(B)); t = 0; site.line = __LINE__; M(A, B); break;
+#define UNA(N, A) \
+  case N: mname = "expect"; text = "expect(" #A ")"; parts = {#A}; truth = bool((A)); t = 0; site.line = __LINE__; expect(A); break;
+#define MSG(N, A) \
+  case N: mname = "expect_msg"; text = "expect_msg(" #A ", \"m\")"; parts = {"m"}; truth = bool((A)); t = 0; site.line = __LINE__; expect_msg(A, "m"); break;
+        Res res = run_ctx(ctx, r.ambient_errno(), [&] {
+          return probe([&] {
+            // clang-format off
+            switch (form) {
+              BIN(0, expect_eq, ==, x & y, z)
+              BIN(1, expect_eq, ==, z, x | y)
+              BIN(2, expect_ne, !=, x ^ y, z)
+              BIN(3, expect_ne, !=, z, x & y)
+              BIN(4, expect_gt, >, x ? y : z, 1)
+              BIN(5, expect_le, <=, x, y ? z : 0)
+              BIN(6, expect_eq, ==, x == y, z == 1)
+              BIN(7, expect_ne, !=, x != y, z != 0)
+              BIN(8, expect_lt, <, x < y, z)
+              BIN(9, expect_ge, >=, x, y >= z)
+              BIN(10, expect_gt, >, x > y, z > 1)
+              BIN(11, expect_le, <=, x <= y, z)
+              BIN(12, expect_eq, ==, x && y, z != 0)
+              BIN(13, expect_eq, ==, x || y, z != 0)
+              BIN(14, expect_ne, !=, x || y, z && x)
+              BIN(15, expect_lt, <, x - y, z - 1)
+              BIN(16, expect_eq, ==, x << 1, y | z)
+              BIN(17, expect_ge, >=, x | 1, y & z)
+              BIN(18, expect_eq, ==, !x, y)
+              BIN(19, expect_eq, ==, -x, y - z)
+              BIN(20, expect_lt, <, x ^ 1, y ? 2 : z)
+              BIN(21, expect_gt, >, x | y, z ^ 1)
+              UNA(22, x == y || z)
+              UNA(23, x && y == z)
+              UNA(24, x ? y : z)
+              UNA(25, x & y)
+              UNA(26, x | y)
+              UNA(27, x < y == z)
+              MSG(28, x | y)
+              MSG(29, x == y ? z : 0)
+              MSG(30, x & y & z)
+              // assignments as operands: evaluated once, with the value of the assignment
+              case 31: mname = "expect_ne"; text = "expect_ne(t = y, z)"; parts = {"t = y", "z"}; truth = (y != z); t = -7; site.line = __LINE__; expect_ne(t = y, z); break;
+              case 32: mname = "expect_eq"; text = "expect_eq(z, t = x)"; parts = {"z", "t = x"}; truth = (z == x); t = -7; site.line = __LINE__; expect_eq(z, t = x); break;
+              case 33: mname = "expect"; text = "expect(t = x & y)"; parts = {"t = x & y"}; truth = ((x & y) != 0); t = -7; site.line = __LINE__; expect(t = x & y); break;
+            }
+            // clang-format on
+          });
+        });
+#undef BIN
+#undef UNA
+#undef MSG
+        if (form == 31) post_ok = (t == y);
+        if (form == 32) post_ok = (t == x);
+        if (form == 33) post_ok = (t == (x & y));
+        auto d = [&] { return text + vf::fmt(" with x=%d y=%d z=%d", x, y, z); };
+        if (r.wants_desc()) r.desc(d() + " [" + ctx_name(ctx) + "]");
+        r.nontriv();
+        if (!post_ok) r.fail(std::string(mname) + ":operand-evaluation", [&] { return d() + vf::fmt(": the assignment operand left t=%d", t); });
+        else judge(r, mname, ctx, !truth, res, site, parts, nullptr, d);
+      }
+    }
+  }
+  // (2) operands with side effects are evaluated exactly once, whatever the verdict
+  r.note("hygiene: side effects");
+  for (int ctx : C) {
+    for (int rel = 0; rel < 8; rel++) {
+      for (int k = -1; k <= 1; k++) {
+        for (int side = 0; side < 3; side++) {  // which operand(s) have the side effect
+          if (!r.take()) continue;
+          Counter ca, cb;
+          ca.n = 5;
+          cb.n = 5 + k;
+          int av = 5, bv = 5 + k;
+          bool truth = false;
+          Site site;
+          site.file = __FILE__;
+          Res res = run_ctx(ctx, r.ambient_errno(), [&] {
+            return probe([&] {
+              // clang-format off
+#define SIDE(M) switch (side) { case 0: site.line = __LINE__; M(ca.next(), bv); break; case 1: site.line = __LINE__; M(av, cb.next()); break; case 2: site.line = __LINE__; M(ca.next(), cb.next()); break; }
+              switch (rel) {
+                case 0: truth = (av == bv); switch (side) { case 0: site.line = __LINE__; expect(ca.next() == bv); break; case 1: site.line = __LINE__; expect(av == cb.next()); break; case 2: site.line = __LINE__; expect(ca.next() == cb.next()); break; } break;
+                case 1: truth = (av == bv); SIDE(expect_eq) break;
+                case 2: truth = (av != bv); SIDE(expect_ne) break;
+                case 3: truth = (av == bv); switch (side) { case 0: site.line = __LINE__; expect_msg(ca.next() == bv, "m"); break; case 1: site.line = __LINE__; expect_msg(av == cb.next(), "m"); break; case 2: site.line = __LINE__; expect_msg(ca.next() == cb.next(), "m"); break; } break;
+                case 4: truth = (av > bv); SIDE(expect_gt) break;
+                case 5: truth = (av >= bv); SIDE(expect_ge) break;
+                case 6: truth = (av < bv); SIDE(expect_lt) break;
+                case 7: truth = (av <= bv); SIDE(expect_le) break;
+              }
+#undef SIDE
+              // clang-format on
+            });
+          });
+          int want_a = 5 + (side != 1), want_b = 5 + k + (side != 0);
+          auto d = [&] { return vf::fmt("%s(%s, %s) with a counter at 5 and %d", rel_names[rel], side != 1 ? "ca.next()" : "5", side != 0 ? "cb.next()" : std::to_string(bv).c_str(), 5 + k); };
+          if (r.wants_desc()) r.desc(d() + " [" + ctx_name(ctx) + "]");
+          r.nontriv();
+          if (ca.n != want_a || cb.n != want_b) r.fail(std::string(rel_names[rel]) + ":operand-evaluation", [&] { return d() + vf::fmt(" [%s]: operands with side effects were evaluated %d and %d times (expected %d and %d)", ctx_name(ctx), ca.n - 5, cb.n - 5 - k, want_a - 5, want_b - 5 - k); });
+          else judge(r, rel_names[rel], ctx, !truth, res, site, {}, nullptr, d);
+        }
+      }
+    }
+  }
+  // (3) operands that can neither be copied nor moved
+  for (int ctx : C) {
+    for (int rel = 0; rel < 8; rel++) {
+      for (int k = -1; k <= 1; k++) {
+        if (!r.take()) continue;
+        Pinned a(0), b(k);
+        bool truth = false;
+        Site site;
+        Res res = run_ctx(ctx, r.ambient_errno(), [&] { return call_rel(rel, a, b, truth, site); });
+        auto d = [&] { return vf::fmt("%s<Pinned>(Pinned(0), Pinned(%d))", rel_names[rel], k); };
+        if (r.wants_desc()) r.desc(d() + " [" + ctx_name(ctx) + "]");
+        r.nontriv();
+        static const std::string custom = kCustomMsg;
+        judge(r, rel_names[rel], ctx, !truth, res, site, rel_parts(rel), rel == 3 ? &custom : nullptr, d);
+      }
+    }
+  }
+  r.bound = std::string("34 call forms whose operands are expressions binding weaker than the comparison (&, |, ^, ?:, ==, <, &&, ||, =, unary) x x,y,z in {0..3}; 8 macro forms x operands with side effects (left, right, both; evaluated exactly once) x 3 outcomes; non-copyable operands; x ") + "10 execution contexts";
 }
 
-VF_SECTION(raises, 1, 1, 60) {
-  check_raises<std::exception>(r, "std::exception");
-  check_raises<std::logic_error>(r, "std::logic_error");
-  check_raises<std::invalid_argument>(r, "std::invalid_argument");
-  check_raises<std::out_of_range>(r, "std::out_of_range");
-  check_raises<std::runtime_error>(r, "std::runtime_error");
-  check_raises<std::range_error>(r, "std::range_error");
-  check_raises<std::bad_alloc>(r, "std::bad_alloc");
-  check_raises<expectation_failed>(r, "expectation_failed");
-  check_raises<Derived1>(r, "Derived1");
-  check_raises<Derived2>(r, "Derived2");
-  r.bound = "10 expected types x 12 behaviours (full matrix)";
-}
-
-VF_MAIN()
